@@ -226,7 +226,10 @@ PROPS = {
                       'STRICT/LOOSE mix)',
         'trusted': ['networkx.shortest_simple_paths (assumed: all simple paths by non-decreasing weight)',
                     'networkx.dijkstra_path (assumed: first of those)', 'explicit_path call-site summary'],
-        'extra': [{'name': 'routing', 'kind': 'bounded', 'script': 'bounded/routing.py', 'timeout': 1500}],
+        'extra': [{'name': 'routing', 'kind': 'bounded', 'script': 'bounded/routing.py', 'timeout': 1500},
+                  # route lists of requests that sit in a synchronisation group (handled by compute_path_dsjctn, not by the
+                  # constrained-path function): STRICT hops honoured or the computation refused
+                  {'name': 'disjunction', 'kind': 'bounded', 'script': 'bounded/disjunction.py', 'timeout': 1500}],
     },
     'C12': {
         'level': 'other',
